@@ -108,6 +108,13 @@ def gen_base(rng):
     p_zero = rng.choice([0.0, 0.2, 0.4])
     p_bad = rng.choice([0.0, 0.0, 0.08])
     p_rec = rng.choice([0.0, 0.0, 0.1])
+    # dependency mode: many elements are defined through OTHER elements of the same series (or of
+    # the second series); "forward" = the element needed comes LATER in C order (it is evaluated
+    # and cached while an earlier element of the same multi-element request is being evaluated),
+    # "backward" = earlier, "mixed" = both (cycles possible -> RuntimeError)
+    dep_mode = rng.choice([None, None, "forward", "forward", "backward", "mixed"])
+    if dep_mode:
+        p_rec, p_bad, p_zero = rng.choice([0.4, 0.6, 0.8]), 0.0, rng.choice([0.0, 0.1])
     tables = []
     tag = 1
     idxs = all_idx(shape, N)
@@ -123,7 +130,19 @@ def gen_base(rng):
                 a = ["raise", rng.choice(list(RAISE))]
             elif r < p_zero + 0.03 + p_bad + p_rec:
                 kind = rng.choice(["self", "lower", "other"])
-                if kind == "self" or not idxs:
+                if dep_mode:
+                    direction = dep_mode if dep_mode != "mixed" else rng.choice(["forward", "backward"])
+                    cand = [j for j in idxs if (j > idx if direction == "forward" else j < idx)]
+                    if dep_mode != "mixed" and cand and rng.random() < 0.7:
+                        # near neighbours: next/previous order of the same block, or the same order of another block
+                        near = sorted(cand, key=lambda j: sum(abs(x - y) for x, y in zip(j, idx)))[:3]
+                        cand = near
+                    if cand:
+                        a = ["get", rng.randrange(nbase), list(rng.choice(cand))]
+                    else:
+                        a = ["val", tag]
+                        tag += 1
+                elif kind == "self" or not idxs:
                     a = ["get", b, list(idx)]
                 elif kind == "lower":
                     a = ["get", b, list(rng.choice(idxs))]
@@ -135,7 +154,7 @@ def gen_base(rng):
             t[idx] = a
         tables.append(t)
     data = []
-    p_pre = rng.choice([0.0, 0.0, 0.3])
+    p_pre = rng.choice([0.0, 0.0, 0.3]) if not dep_mode else 0.0
     for b in range(nbase):
         d = {}
         for idx, a in tables[b].items():
@@ -146,6 +165,7 @@ def gen_base(rng):
         shape=list(shape),
         ninf=ninf,
         N=list(N),
+        dep_mode=dep_mode,
         tables=[[[list(k), a] for k, a in t.items()] for t in tables],
         data=[[[list(k), v] for k, v in d.items()] for d in data],
     )
@@ -338,6 +358,9 @@ def tie_getitem(ctx, ncases=None):
                 dist["exc"][o[1]] = dist["exc"].get(o[1], 0) + 1
         k = "%s/inf%d" % (tuple(base["shape"]), base["ninf"])
         dist["shapes"][k] = dist["shapes"].get(k, 0) + 1
+        dm = str(base.get("dep_mode"))
+        dist.setdefault("dependency_mode", {})
+        dist["dependency_mode"][dm] = dist["dependency_mode"].get(dm, 0) + 1
         if len(calls) >= 3 and any(o[0] == "array" and len(o[2]) >= 2 for o in obs):
             nontrivial.add(core.sha(core.canon(case))[:16])
     bad = core.coq_eval_cases("k_getitem", HEADER, terms, shard=ctx.n(20, 75), jobs=ctx.n(8, 16))
